@@ -666,6 +666,8 @@ fn drive(
     let mut quiescent_points = 0u64;
     let mut diverged = false;
     let deadline = Instant::now() + Duration::from_secs(20);
+    // last time a progress record was produced (busy-polling detection)
+    let mut last_progress_at = Instant::now();
 
     loop {
         flag.woken.store(false, Ordering::SeqCst);
@@ -676,6 +678,7 @@ fn drive(
             Poll::Ready(Some(item)) => {
                 idle_polls = 0;
                 last_progress = progress;
+                last_progress_at = Instant::now();
                 items_out.lock().unwrap().push(item);
                 continue;
             }
@@ -692,6 +695,7 @@ fn drive(
         }
         if progress != last_progress {
             last_progress = progress;
+            last_progress_at = Instant::now();
             idle_polls = 0;
         } else {
             idle_polls += 1;
@@ -706,8 +710,11 @@ fn drive(
         let waiting = with_ctx(|c| c.waiting.clone());
         if waiting.is_empty() {
             if woken {
-                // busy-polling with nothing to open: let it spin, bounded.
-                if Instant::now() > deadline {
+                // busy-polling with nothing to open: let it spin, bounded
+                // (a real run makes progress within microseconds).
+                if last_progress_at.elapsed() > Duration::from_millis(700)
+                    || Instant::now() > deadline
+                {
                     rec("stuck", json!({"why":"busy","polls":polls}));
                     break;
                 }
@@ -717,7 +724,7 @@ fn drive(
             let t0 = Instant::now();
             while !flag.woken.load(Ordering::SeqCst) {
                 thread::park_timeout(Duration::from_millis(2));
-                if t0.elapsed() > Duration::from_secs(5) {
+                if t0.elapsed() > Duration::from_millis(1500) {
                     break;
                 }
             }
@@ -816,7 +823,7 @@ pub fn run_case(case: &Case) -> RunResult {
         })
         .unwrap();
 
-    let outcome = rx.recv_timeout(Duration::from_secs(30));
+    let outcome = rx.recv_timeout(Duration::from_secs(8));
     let mut hung = false;
     let mut escaped: Option<String> = None;
     let mut calls_during = SENTINEL_CALLS.load(Ordering::SeqCst);
@@ -933,6 +940,26 @@ fn merge_rx(lines: Vec<String>, rx: &[Value]) -> Vec<String> {
                 }
             }
             i += 1;
+            // fields the monitor reads must exist even if the item was never
+            // received (hung or stuck run)
+            if kind == "perr" && v.get("item").is_none() {
+                v["item"] = json!(-1);
+            }
+            if kind == "ev" && v["t"] == "Sc" {
+                let k = v["k"].as_str().unwrap_or("").to_owned();
+                if matches!(k.as_str(), "StepF" | "HookF") {
+                    for (key, dflt) in [
+                        ("pty", json!("")),
+                        ("pmsg", json!("")),
+                        ("cands", json!([])),
+                        ("world", json!(false)),
+                    ] {
+                        if v.get(key).is_none() {
+                            v[key] = dflt;
+                        }
+                    }
+                }
+            }
         }
         out.push(v.to_string());
     }
